@@ -52,14 +52,20 @@ ASSUMPTIONS = [
 CFGS = [(True, True), (True, False), (False, True), (False, False)]
 
 
-def run(ctx, n_pairs=None, rng_name="main"):
+def run(ctx, n_pairs=None, rng_name="main", max_seconds=None):
+    import time
+
+    t_end = time.time() + max_seconds if max_seconds else None
     rng = ctx.rng(rng_name)
     K.check_reflect_tables(ctx, ctx.rng(rng_name + "/reflect"), 6 if ctx.thorough else 2)
     n = n_pairs or (1500 if ctx.thorough else 90)
     pending = []
     for i in range(n):
         odd = rng.random() < 0.25
-        a, b = G.gen_pair(rng, odd=odd)
+        if t_end and time.time() > t_end:
+            ctx.note("search stopped after %d pairs (time cap %ss)" % (i, max_seconds))
+            break
+        a, b = G.gen_pair(rng, odd=odd, funcs=True)
         ctx.hist("pair.class", "odd" if odd else "plain")
         ctx.hist("pair.tables", "%d->%d" % (len(a["tables"]), len(b["tables"])))
         if i < 3:
@@ -75,7 +81,8 @@ def run(ctx, n_pairs=None, rng_name="main"):
 
 
 def search(ctx):
-    run(ctx, n_pairs=600, rng_name="search")
+    # runs only when a proof or the correspondence is broken and the main run found no failing input; capped
+    run(ctx, n_pairs=600, rng_name="search", max_seconds=45)
 
 
 # --- known findings -----------------------------------------------------------------------------------
@@ -88,6 +95,9 @@ def classify(failure):
         # batch recreate re-emits a stored default `(a) + (b)` (from text("((a) + (b))")) without parentheses
         if "default-expr-nonplain" in tags and "syntax error" in what and "batch:True" in tags:
             return "C06-F9x"
+        # batch recreate re-emits a stored default like 'a' || 'b' (from text("('a' || 'b')")) without parentheses
+        if "default-expr-quotedlooking" in tags and "syntax error" in what and "batch:True" in tags:
+            return "C06-F9q"
         # batch recreate of a table none of whose columns survives: INSERT .. SELECT without columns
         if "table-without-common-column" in tags and "exc:KeyError" in tags and "insert_from_select" in what and "batch:True" in tags:
             return "C06-EMPTYCOPY"
